@@ -3,6 +3,7 @@
 package actionlint
 
 import (
+	"bytes"
 	"io"
 	"os"
 	"path/filepath"
@@ -86,7 +87,7 @@ func verifC15NativeCheck(src, pat string, viaConfig bool) {
 	verifCheckf(len(errs) == want, "ignore-pattern-not-applied-to-every-diagnostic", pat)
 }
 
-func verifC15NativeMultiRepo(wf string, order int) {
+func verifC15NativeMultiRepo(wf string, order, format int) {
 	tmp, err := os.MkdirTemp("", "verif-c15m-")
 	if err != nil {
 		panic(err)
@@ -133,11 +134,19 @@ func verifC15NativeMultiRepo(wf string, order int) {
 	if order == 1 {
 		args = []string{paths[1], paths[0]}
 	}
-	l, err := NewLinter(io.Discard, &LinterOptions{})
+	var buf bytes.Buffer
+	opts := &LinterOptions{}
+	if format == 1 {
+		opts.Format = "{{range $ := .}}{{$.Message}}\n{{end}}"
+	}
+	l, err := NewLinter(&buf, opts)
 	must(err)
 	errs, err := l.LintFiles(args, nil)
 	verifCheck(err == nil, "lint-failed")
 	verifReach("linted")
+	if format == 1 {
+		verifCheck(strings.Count(buf.String(), "\n") == len(errs), "formatted-output-and-returned-diagnostics-differ")
+	}
 	for k, p := range paths {
 		verifCheckf(digest(errs, filepath.Base(p)) == single[k], "file-filtered-by-another-repository's-configuration", p)
 	}
